@@ -19,6 +19,13 @@ func init() {
 }
 
 func c02(c *Ctx) {
+	{
+		wj := "litefs.(*DB).WriteJournalAt"
+		c.Guarded("journal-write/page-size-only-when-unknown", wj, c.P.Writes("litefs.DB.pageSize"), gs(GP("(0 == p0.pageSize)", true)), 1,
+			"a write at offset 0 of the journal teaches the page size only while none is known",
+			"the PERSIST finalisation (28 zero bytes at offset 0) would otherwise be taken for a header: the page size becomes 0 just before the commit runs and the commit is dropped as 'nothing written' - SQLite is told it succeeded, no transaction file is written")
+		c.journalPersistCommitError("journal-write")
+	}
 	c.pageLoopsComplete("complete", "CommitJournal", "rollbackJournalSegment")
 	p := c.P
 	call := func(n string) IM { return p.PlainCalls("litefs.(*DB)." + n) }
@@ -217,4 +224,17 @@ func (c *Ctx) walCacheFamily(prefix string) {
 				short+": every successful exit has replaced DB.wal."+f+" by a fresh table", "a stale frame-offset or checksum table points export, snapshot and checksum code at offsets of a WAL that no longer holds those frames")
 		}
 	}
+}
+
+// journalPersistCommitError (C02, C13): the commit triggered by the PERSIST
+// finalisation write is part of that write - its error is the write's result
+// and nothing is written to the journal file after a failed commit.
+func (c *Ctx) journalPersistCommitError(prefix string) {
+	p := c.P
+	wj := "litefs.(*DB).WriteJournalAt"
+	cj := p.PlainCalls("litefs.(*DB).CommitJournal")
+	c.NoPathFromEdge(prefix+"/persist-commit-error-stops-the-write", wj, G(`^\(litefs\.\(\*DB\)\.CommitJournal\(.*\) == nil\)$|^\(nil == litefs\.\(\*DB\)\.CommitJournal\(.*\)\)$`, false), p.PlainCalls("os.(*File).WriteAt"), 1,
+		"after a failed PERSIST commit the journal write does not go on to the file write (whose result would replace the commit's error)",
+		"a refused forwarded commit (409 from the primary) would be reported to SQLite as a successful commit: the replica keeps the new page, its position stays, the acknowledged write is never on the primary")
+	c.ErrHandled(prefix+"/persist-commit-error-returned", wj, cj, nil, 1, "the commit's error is returned", "")
 }
